@@ -224,6 +224,20 @@ def run_cases(cid, specs, workdir, nworkers, case_timeout, progress=True):
                 i, s = q.get_nowait()
             except queue.Empty:
                 break
+            if s.get("_env"):
+                # a case that asks for its own interpreter settings (e.g. PYTHONOPTIMIZE=1, a locale, a umask-like variable)
+                # runs in a fresh worker process of its own
+                w1 = Worker(cid, workdir, dict(env, **{k: str(v) for k, v in s["_env"].items()}))
+                r = w1.run(s, s.get("_timeout", case_timeout))
+                if r is None:
+                    w1.kill()
+                    r = dict(status="inconclusive", detail="case watchdog (%ss) or worker died" % s.get("_timeout", case_timeout))
+                else:
+                    w1.close()
+                results[i] = r
+                with lock:
+                    done[0] += 1
+                continue
             if w is None:
                 w = Worker(cid, workdir, env)
             r = w.run(s, s.get("_timeout", case_timeout))
